@@ -1862,11 +1862,10 @@ class Process:
                     if line:
                         try:
                             name, value = line.split(b': ')
+                            fields[name] = int(value)
                         except ValueError:
                             # https://github.com/giampaolo/psutil/issues/1004
                             continue
-                        else:
-                            fields[name] = int(value)
             if not fields:
                 msg = f"{fname} file was empty"
                 raise RuntimeError(msg)
